@@ -43,8 +43,8 @@ func init() {
 			{ID: "X7", Floor: 3, Doc: "every XML marshaler (MarshalXML / MarshalXMLAttr / MarshalText) of the package has a value receiver, so that it is in the method set of T and *T and a value that is not addressable is still written in the documented form (5 today)", Run: c04X7},
 			{ID: "X8", Floor: 1, Doc: "a time formatted by hand in an XML writer uses a layout its reader parses: the type's own UnmarshalXML with the same layout, else time.Time's unmarshaler, i.e. RFC 3339 with nanoseconds (Date.MarshalXML)", Run: c04X8},
 		},
-		Mutants: append(append([]core.Mutant{}, append(append(append(append([]core.Mutant{}, c04Mutants...), c04Mutants2...), append(append([]core.Mutant{}, c04TimeMutants...), append(append([]core.Mutant{}, c04Mutants3...), append(append([]core.Mutant{}, c04Mutants4...), c04BoundsMutants...)...)...)...), core.Mutant{Name: "x7-date-marshalxml-pointer-receiver", File: "note.go", Find: "func (d Date) MarshalXML(", Replace: "func (d *Date) MarshalXML(", ExpectRule: "X7", ExpectConstruct: "receiver@Date.MarshalXML"})...), c04Mutants5...),
-		Benign:  append(append([]core.Mutant{}, append(append(append([]core.Mutant{}, c04Benign...), c04Benign2...), append(append([]core.Mutant{}, c04Benign3...), append(append([]core.Mutant{}, c04Benign4...), c04BoundsBenign...)...)...)...), c04Benign5...),
+		Mutants: append(append([]core.Mutant{}, append(append(append(append([]core.Mutant{}, c04Mutants...), c04Mutants2...), append(append([]core.Mutant{}, c04TimeMutants...), append(append([]core.Mutant{}, c04Mutants3...), append(append([]core.Mutant{}, c04Mutants4...), append(append([]core.Mutant{}, c04BoundsMutants...), c04R8Mutants...)...)...)...)...), core.Mutant{Name: "x7-date-marshalxml-pointer-receiver", File: "note.go", Find: "func (d Date) MarshalXML(", Replace: "func (d *Date) MarshalXML(", ExpectRule: "X7", ExpectConstruct: "receiver@Date.MarshalXML"})...), c04Mutants5...),
+		Benign:  append(append([]core.Mutant{}, append(append(append([]core.Mutant{}, c04Benign...), c04Benign2...), append(append([]core.Mutant{}, c04Benign3...), append(append([]core.Mutant{}, c04Benign4...), append(append([]core.Mutant{}, c04BoundsBenign...), c04R8Benign...)...)...)...)...), c04Benign5...),
 	})
 }
 
